@@ -196,7 +196,7 @@ def gen_script(rng, case, spec, nops=30, facilities=None):
     return lines
 
 
-TERMINAL = ('world ', 'client ', 'bind ', 'final ', 'reply ', 'ret ', 'exc ', 'pump ', 'ids ', 'noworld', 'err ')
+TERMINAL = ('world ', 'client ', 'bind ', 'final ', 'reply ', 'react ', 'ret ', 'exc ', 'pump ', 'ids ', 'noworld', 'err ')
 
 
 def segment(script, trace):
